@@ -25,6 +25,11 @@ package semantic
 // ---- LIMIT and ORDER BY as the statement collects them (C12) -------------------------------
 // limitCollection: the hook of the LIMIT clause. Only a non-negative int64 literal sets the limit;
 // everything else is rejected with an error and leaves the statement alone.
+// Statement invariants over fields with a single writer each (the hook that collects them).
+//@ props C12 C13 C08
+//@ fieldinv[limit-not-negative] Statement.limit,limitSet writers limitCollection$1: x.limitSet ==> x.limit >= 0
+//@ fieldinv[having-tokens] Statement.havingExpression writers havingExpression$1: tokensOK(x.havingExpression)
+
 //@ props C12 C08
 //@ func limitCollection$1
 //@   opt terminates
@@ -69,3 +74,157 @@ package semantic
 //@   loop 1 invariant[seen] forall k string :: {has(seen, k)} has(seen, k) ==> exists j int :: {s.orderBy[j]} 0 <= j && j < $i && s.orderBy[j].Binding == k
 //@   loop 1 invariant[dups] dups ==> exists i int, j int :: {s.orderBy[i], s.orderBy[j]} 0 <= i && i < j && j < $i && s.orderBy[i].Binding == s.orderBy[j].Binding
 //@   loop 2 invariant seen != nil && fresh(seen) && dups && len(s.orderBy) >= 0
+
+// ---- HAVING: the evaluators (C13) ------------------------------------------------------------
+// Evaluator.Evaluate is a heap function: call("Evaluator.Evaluate#0", e, r) is the truth value it
+// returns for row r, call("Evaluator.Evaluate#1", e, r) says that it returns no error.
+//@ props C13 C08
+//@ func (this Evaluator) Evaluate
+//@   nobody
+//@   heapfun
+//@   requires r != nil ==> wfRow(r)
+
+// Rows handed to evaluators hold well-formed cells.
+//@ spec macro wfRow(r table.Row) Bool = forall k string :: {has(r, k)} has(r, k) ==> wfCell(r[k])
+
+//@ func (a *AlwaysReturn) Evaluate
+//@   heapfun
+//@   requires a != nil
+//@   ensures[constant] result0 == a.V && result1 == nil
+
+//@ func cellFromRow
+//@   heapfun
+//@   ensures[found] has(r, binding) ==> result0 == r[binding] && result1 == nil
+//@   ensures[missing] !has(r, binding) ==> result0 == nil && result1 != nil
+
+// The text two values are compared by: literals by their comparable string (numbers zero padded),
+// strings as text literals, everything else by its printed form; always trimmed.
+//@ spec macro cmpKeyOf(c *table.Cell) String = ite(c.L != nil, trimspace(cmpText(c.L.t, c.L.v)), ite(c.S != nil, trimspace(cmpText(3, box(deref(c.S), "string"))), trimspace(cellText(c))))
+//@ func formatCell
+//@   heapfun
+//@   requires wfCell(c)
+//@   ensures[key] result1 == nil ==> result0 == cmpKeyOf(c)
+//@   ensures[literals-and-values-always-format] c.S == nil ==> result1 == nil
+
+// A comparison: EQ, LT, GT on two texts.
+//@ spec def cmpOp(op Int, a String, b String) Bool = ite(op == 2, a == b, ite(op == 0, a < b, b < a))
+
+//@ func (e *evaluationNode) Evaluate
+//@   heapfun
+//@   requires e != nil && (r != nil ==> wfRow(r))
+//@   ensures[missing-binding-is-an-error] !has(r, e.leftBinding) || !has(r, e.rightBinding) ==> result1 != nil
+//@   ensures[compares-the-two-values] result1 == nil ==> result0 == cmpOp(e.operation, cmpKeyOf(r[e.leftBinding]), cmpKeyOf(r[e.rightBinding]))
+//@   ensures[only-comparisons] e.operation != EQ && e.operation != LT && e.operation != GT ==> result1 != nil
+
+// binding (=,<,>) literal: only a literal of the same type, or a string against a text literal, is
+// compared; a value of another kind never satisfies the comparison.
+//@ func (e *comparisonForLiteral) Evaluate
+//@   heapfun
+//@   requires e != nil && (r != nil ==> wfRow(r))
+//@   ensures[missing-binding-is-an-error] !has(r, e.leftBinding) ==> result1 != nil
+//@   ensures[not-a-literal-never-holds] has(r, e.leftBinding) && r[e.leftBinding].L == nil && r[e.leftBinding].S == nil ==> !result0 && result1 == nil
+//@   ensures[other-type-never-holds] result1 == nil && has(r, e.leftBinding) && r[e.leftBinding].L != nil && litTypePart(trimspace(e.rightLiteral)) != "blob" && r[e.leftBinding].L.t != parsedType(trimspace(e.rightLiteral)) ==> !result0
+//@   ensures[same-type-compares-values] result1 == nil && has(r, e.leftBinding) && r[e.leftBinding].L != nil && litTypePart(trimspace(e.rightLiteral)) != "blob" && r[e.leftBinding].L.t == parsedType(trimspace(e.rightLiteral)) ==> result0 == cmpOp(e.operation, cmpKeyOf(r[e.leftBinding]), cmpText(parsedType(trimspace(e.rightLiteral)), parsedValue(trimspace(e.rightLiteral))))
+//@   ensures[string-against-non-text-is-rejected] has(r, e.leftBinding) && r[e.leftBinding].S != nil && litTypePart(trimspace(e.rightLiteral)) != "blob" && parsedType(trimspace(e.rightLiteral)) != 3 ==> result1 != nil
+
+//@ func (e *comparisonForNodeLiteral) Evaluate
+//@   heapfun
+//@   requires e != nil && (r != nil ==> wfRow(r))
+//@   ensures[missing-binding-is-an-error] !has(r, e.leftBinding) ==> result1 != nil
+//@   ensures[string-is-rejected] has(r, e.leftBinding) && r[e.leftBinding].S != nil ==> result1 != nil
+//@   ensures[not-a-node-never-holds] has(r, e.leftBinding) && r[e.leftBinding].S == nil && r[e.leftBinding].N == nil ==> !result0 && result1 == nil
+//@   ensures[equality-of-printed-nodes] result1 == nil && has(r, e.leftBinding) && r[e.leftBinding].N != nil ==> e.operation == EQ && result0 == (cmpKeyOf(r[e.leftBinding]) == trimspace(e.rightNodeLiteral))
+
+//@ func (e *comparisonForPredicateLiteral) Evaluate
+//@   heapfun
+//@   requires e != nil && (r != nil ==> wfRow(r))
+//@   ensures[missing-binding-is-an-error] !has(r, e.leftBinding) ==> result1 != nil
+//@   ensures[string-is-rejected] has(r, e.leftBinding) && r[e.leftBinding].S != nil ==> result1 != nil
+//@   ensures[not-a-predicate-never-holds] has(r, e.leftBinding) && r[e.leftBinding].S == nil && r[e.leftBinding].P == nil ==> !result0 && result1 == nil
+//@   ensures[equality-of-printed-predicates] result1 == nil && has(r, e.leftBinding) && r[e.leftBinding].P != nil ==> e.operation == EQ && result0 == (cmpKeyOf(r[e.leftBinding]) == trimspace(e.rightPredicateLiteral))
+
+// binding (=,<,>) time: instants are compared, whatever zone they are written in.
+//@ func (e *comparisonForTimeLiteral) Evaluate
+//@   heapfun
+//@   requires e != nil && (r != nil ==> wfRow(r))
+//@   ensures[missing-binding-is-an-error] !has(r, e.leftBinding) ==> result1 != nil
+//@   ensures[string-is-rejected] has(r, e.leftBinding) && r[e.leftBinding].S != nil ==> result1 != nil
+//@   ensures[not-a-time-never-holds] has(r, e.leftBinding) && r[e.leftBinding].S == nil && r[e.leftBinding].T == nil ==> !result0 && result1 == nil
+//@   ensures[compares-instants] result1 == nil && has(r, e.leftBinding) && r[e.leftBinding].T != nil ==> result0 == ite(e.operation == EQ, tinst(deref(r[e.leftBinding].T)) == tinst(timeparse(RFC3339Nano(), trimspace(e.rightTimeLiteral))), ite(e.operation == LT, tinst(deref(r[e.leftBinding].T)) < tinst(timeparse(RFC3339Nano(), trimspace(e.rightTimeLiteral))), tinst(deref(r[e.leftBinding].T)) > tinst(timeparse(RFC3339Nano(), trimspace(e.rightTimeLiteral)))))
+//@   ensures[unparsable-time-is-an-error] has(r, e.leftBinding) && r[e.leftBinding].S == nil && r[e.leftBinding].T != nil && !timeparseOK(RFC3339Nano(), trimspace(e.rightTimeLiteral)) ==> result1 != nil
+
+// NOT, AND, OR: the usual truth tables over the values of the operands (left to right, short circuit;
+// an error of an operand that is evaluated is an error of the whole).
+//@ spec macro evalV(e Evaluator, r table.Row) Bool = call("Evaluator.Evaluate#0", e, r)
+//@ spec macro evalOK(e Evaluator, r table.Row) Bool = call("Evaluator.Evaluate#1", e, r)
+//@ func (e *booleanNode) Evaluate
+//@   heapfun
+//@   requires e != nil && (r != nil ==> wfRow(r)) && (e.lS ==> e.lE != nil) && (e.rS ==> e.rE != nil)
+//@   ensures[needs-left-operand] !e.lS ==> result1 != nil
+//@   ensures[left-error-surfaces] e.lS && !evalOK(e.lE, r) ==> result1 != nil
+//@   ensures[not] e.lS && evalOK(e.lE, r) && e.op == NOT ==> result1 == nil && result0 == !evalV(e.lE, r)
+//@   ensures[and] e.lS && evalOK(e.lE, r) && e.op == AND && !evalV(e.lE, r) ==> result1 == nil && !result0
+//@   ensures[and-right] e.lS && evalOK(e.lE, r) && e.op == AND && evalV(e.lE, r) ==> (e.rS && evalOK(e.rE, r) ==> result1 == nil && result0 == evalV(e.rE, r)) && (!e.rS || !evalOK(e.rE, r) ==> result1 != nil)
+//@   ensures[or] e.lS && evalOK(e.lE, r) && e.op == OR && evalV(e.lE, r) ==> result1 == nil && result0
+//@   ensures[or-right] e.lS && evalOK(e.lE, r) && e.op == OR && !evalV(e.lE, r) ==> (e.rS && evalOK(e.rE, r) ==> result1 == nil && result0 == evalV(e.rE, r)) && (!e.rS || !evalOK(e.rE, r) ==> result1 != nil)
+//@   ensures[only-boolean-operations] e.lS && evalOK(e.lE, r) && e.op != NOT && e.op != AND && e.op != OR ==> result1 != nil
+
+// The constructors: an evaluator of the right kind over exactly the given operands, or an error.
+//@ func NewEvaluationExpression
+//@   ensures[value-or-error] (result0 != nil && result1 == nil) || (result0 == nil && result1 != nil)
+//@   ensures[accepts] result1 == nil <==> (trimspace(lB) != "" && trimspace(rB) != "" && (op == EQ || op == LT || op == GT))
+//@   ensures[node] result1 == nil ==> typeis(result0, "*evaluationNode") && fresh(unbox(result0, "*evaluationNode")) && unbox(result0, "*evaluationNode").operation == op && unbox(result0, "*evaluationNode").leftBinding == lB && unbox(result0, "*evaluationNode").rightBinding == rB
+//@ func NewEvaluationExpressionForLiteral
+//@   ensures[value-or-error] (result0 != nil && result1 == nil) || (result0 == nil && result1 != nil)
+//@   ensures[accepts] result1 == nil <==> (trimspace(lB) != "" && trimspace(rL) != "" && (op == EQ || op == LT || op == GT))
+//@   ensures[node] result1 == nil ==> typeis(result0, "*comparisonForLiteral") && unbox(result0, "*comparisonForLiteral").operation == op && unbox(result0, "*comparisonForLiteral").leftBinding == trimspace(lB) && unbox(result0, "*comparisonForLiteral").rightLiteral == trimspace(rL)
+//@ func NewEvaluationExpressionForNodeLiteral
+//@   ensures[value-or-error] (result0 != nil && result1 == nil) || (result0 == nil && result1 != nil)
+//@   ensures[node] result1 == nil ==> typeis(result0, "*comparisonForNodeLiteral") && unbox(result0, "*comparisonForNodeLiteral").operation == op && unbox(result0, "*comparisonForNodeLiteral").leftBinding == trimspace(lB) && unbox(result0, "*comparisonForNodeLiteral").rightNodeLiteral == trimspace(rNL)
+//@ func NewEvaluationExpressionForTimeLiteral
+//@   ensures[value-or-error] (result0 != nil && result1 == nil) || (result0 == nil && result1 != nil)
+//@   ensures[node] result1 == nil ==> typeis(result0, "*comparisonForTimeLiteral") && unbox(result0, "*comparisonForTimeLiteral").operation == op && unbox(result0, "*comparisonForTimeLiteral").leftBinding == trimspace(lB) && unbox(result0, "*comparisonForTimeLiteral").rightTimeLiteral == trimspace(rTL)
+//@ func NewEvaluationExpressionForPredicateLiteral
+//@   ensures[value-or-error] (result0 != nil && result1 == nil) || (result0 == nil && result1 != nil)
+//@   ensures[node] result1 == nil ==> typeis(result0, "*comparisonForPredicateLiteral") && unbox(result0, "*comparisonForPredicateLiteral").operation == op && unbox(result0, "*comparisonForPredicateLiteral").leftBinding == trimspace(lB) && unbox(result0, "*comparisonForPredicateLiteral").rightPredicateLiteral == trimspace(rTL)
+//@ func NewBinaryBooleanExpression
+//@   ensures[value-or-error] (result0 != nil && result1 == nil) || (result0 == nil && result1 != nil)
+//@   ensures[accepts] result1 == nil <==> (op == AND || op == OR)
+//@   ensures[node] result1 == nil ==> typeis(result0, "*booleanNode") && fresh(unbox(result0, "*booleanNode")) && unbox(result0, "*booleanNode").op == op && unbox(result0, "*booleanNode").lS && unbox(result0, "*booleanNode").rS && unbox(result0, "*booleanNode").lE == lE && unbox(result0, "*booleanNode").rE == rE
+//@ func NewUnaryBooleanExpression
+//@   ensures[value-or-error] (result0 != nil && result1 == nil) || (result0 == nil && result1 != nil)
+//@   ensures[accepts] result1 == nil <==> op == NOT
+//@   ensures[node] result1 == nil ==> typeis(result0, "*booleanNode") && fresh(unbox(result0, "*booleanNode")) && unbox(result0, "*booleanNode").op == NOT && unbox(result0, "*booleanNode").lS && !unbox(result0, "*booleanNode").rS && unbox(result0, "*booleanNode").lE == lE
+
+// The builder of the HAVING expression: for every token sequence it returns an evaluator or an
+// error, never panics and terminates (the unread tail gets shorter with every recursive call).
+//@ spec macro tokensOK(ce []ConsumedElement) Bool = forall k int :: {ce[k]} 0 <= k && k < len(ce) ==> !ce[k].isSymbol && ce[k].token != nil
+//@ func internalNewEvaluator
+//@   opt terminates
+//@   requires tokensOK(ce)
+//@   decreases len(ce)
+//@   ensures[value-or-error] (result0 != nil && result2 == nil) || (result0 == nil && result2 != nil)
+//@   ensures[tail-is-a-suffix] result2 == nil ==> len(result1) < len(ce) && tokensOK(result1)
+//@   ensures[not-builds-a-negation] result2 == nil && ce[0].token.Type == lexer.ItemNot ==> typeis(result0, "*booleanNode") && unbox(result0, "*booleanNode").op == NOT && unbox(result0, "*booleanNode").lS && !unbox(result0, "*booleanNode").rS && unbox(result0, "*booleanNode").lE != nil
+//@   ensures[comparison-operator] result2 == nil && ce[0].token.Type == lexer.ItemBinding ==> len(ce) >= 3 && (ce[1].token.Type == lexer.ItemEQ || ce[1].token.Type == lexer.ItemLT || ce[1].token.Type == lexer.ItemGT) && result1 == ite(len(ce) > 3, ce[3:], nil)
+//@   ensures[binding-vs-binding] result2 == nil && ce[0].token.Type == lexer.ItemBinding && ce[2].token.Type == lexer.ItemBinding ==> typeis(result0, "*evaluationNode") && unbox(result0, "*evaluationNode").operation == ite(ce[1].token.Type == lexer.ItemEQ, EQ, ite(ce[1].token.Type == lexer.ItemLT, LT, GT)) && unbox(result0, "*evaluationNode").leftBinding == ce[0].token.Text && unbox(result0, "*evaluationNode").rightBinding == ce[2].token.Text
+//@   ensures[binding-vs-literal] result2 == nil && ce[0].token.Type == lexer.ItemBinding && ce[2].token.Type == lexer.ItemLiteral ==> typeis(result0, "*comparisonForLiteral") && unbox(result0, "*comparisonForLiteral").operation == ite(ce[1].token.Type == lexer.ItemEQ, EQ, ite(ce[1].token.Type == lexer.ItemLT, LT, GT)) && unbox(result0, "*comparisonForLiteral").leftBinding == trimspace(ce[0].token.Text) && unbox(result0, "*comparisonForLiteral").rightLiteral == trimspace(ce[2].token.Text)
+//@   ensures[binding-vs-node] result2 == nil && ce[0].token.Type == lexer.ItemBinding && ce[2].token.Type == lexer.ItemNode ==> typeis(result0, "*comparisonForNodeLiteral") && unbox(result0, "*comparisonForNodeLiteral").operation == ite(ce[1].token.Type == lexer.ItemEQ, EQ, ite(ce[1].token.Type == lexer.ItemLT, LT, GT)) && unbox(result0, "*comparisonForNodeLiteral").leftBinding == trimspace(ce[0].token.Text) && unbox(result0, "*comparisonForNodeLiteral").rightNodeLiteral == trimspace(ce[2].token.Text)
+//@   ensures[binding-vs-time] result2 == nil && ce[0].token.Type == lexer.ItemBinding && ce[2].token.Type == lexer.ItemTime ==> typeis(result0, "*comparisonForTimeLiteral") && unbox(result0, "*comparisonForTimeLiteral").operation == ite(ce[1].token.Type == lexer.ItemEQ, EQ, ite(ce[1].token.Type == lexer.ItemLT, LT, GT)) && unbox(result0, "*comparisonForTimeLiteral").leftBinding == trimspace(ce[0].token.Text) && unbox(result0, "*comparisonForTimeLiteral").rightTimeLiteral == trimspace(ce[2].token.Text)
+//@   ensures[binding-vs-predicate] result2 == nil && ce[0].token.Type == lexer.ItemBinding && ce[2].token.Type == lexer.ItemPredicate ==> typeis(result0, "*comparisonForPredicateLiteral") && unbox(result0, "*comparisonForPredicateLiteral").operation == ite(ce[1].token.Type == lexer.ItemEQ, EQ, ite(ce[1].token.Type == lexer.ItemLT, LT, GT)) && unbox(result0, "*comparisonForPredicateLiteral").leftBinding == trimspace(ce[0].token.Text) && unbox(result0, "*comparisonForPredicateLiteral").rightPredicateLiteral == trimspace(ce[2].token.Text)
+//@ func NewEvaluator
+//@   requires tokensOK(ce)
+//@   ensures[value-or-error] (result0 != nil && result1 == nil) || (result0 == nil && result1 != nil)
+
+// The HAVING hooks: the token collector keeps only tokens (never symbols, never the HAVING keyword);
+// the builder turns them into an evaluator or an error.
+//@ func havingExpression$1
+//@   requires st != nil
+//@   modifies st.havingExpression
+//@   ensures[no-error] result1 == nil
+//@   ensures[collects-tokens] !ce.isSymbol && ce.token.Type != lexer.ItemHaving ==> len(st.havingExpression) == old(len(st.havingExpression)) + 1 && st.havingExpression[old(len(st.havingExpression))] == ce && (forall j int :: {st.havingExpression[j]} 0 <= j && j < old(len(st.havingExpression)) ==> st.havingExpression[j] == old(st.havingExpression[j]))
+//@   ensures[skips-the-rest] ce.isSymbol || ce.token.Type == lexer.ItemHaving ==> st.havingExpression == old(st.havingExpression)
+//@ func havingExpressionBuilder$1
+//@   requires s != nil
+//@   modifies s.havingExpressionEvaluator
+//@   ensures[evaluator-or-error] result1 == nil ==> s.havingExpressionEvaluator != nil
